@@ -66,7 +66,10 @@ def run(ctx):
         else:
             r.ok(rule, 'decode:none-after-consume', 'no consuming buffer operation can precede an Ok(None) return', loc=b.loc)
         dom = [c for c in cons if any(b.dominates(c.bb, bb) for bb, si in some_sites)]
-        if len(cons) == 1 and len(dom) == 1:
+        if len(cons) == 1 and len(dom) == 1 and len(cons[0].args) < 2:
+            r.fail(rule, 'decode:consume-exactly-frame', '%s takes everything that is buffered, not the header\'s message_size: frames (or the start of one) that arrived in the same read are thrown away'
+                   % cons[0].callee.rsplit('::', 1)[-1], loc=cons[0].loc)
+        elif len(cons) == 1 and len(dom) == 1:
             a1 = fmt_sym(b, F.sym_operand(cons[0].args[1]))
             if re.search(r'message_size as usize\)?$', a1) and 'MessageHeader' in a1 or ('message_size' in a1 and 'decode' in a1):
                 r.ok(rule, 'decode:consume-exactly-frame', 'exactly one consuming call, split_to(header.message_size), dominates Ok(Some)', detail=a1[:120], loc=cons[0].loc)
